@@ -77,7 +77,76 @@ func runC18(c *eng.Ctx) {
 			}
 		}
 	}
-	c.Floor(20)
+	if hr != nil {
+		// each event carries the payload that belongs to its op
+		pubs := eng.CallsIn(hr, "server.activityManager.publishActivityEvent")
+		eng.Instrs(hr, func(in ssa.Instruction) {
+			st, ok := in.(*ssa.Store)
+			if !ok {
+				return
+			}
+			fa, ok := st.Addr.(*ssa.FieldAddr)
+			if !ok || eng.FieldNameOf(fa) != "Op" {
+				return
+			}
+			k, ok := st.Val.(*ssa.Const)
+			if !ok {
+				return
+			}
+			name := strings.TrimPrefix(eng.EnumName(k), "ActivityStreamOp_")
+			field := ""
+			for _, part := range strings.Split(name, "_") {
+				if part != "" {
+					field += part[:1] + strings.ToLower(part[1:])
+				}
+			}
+			field += "Op"
+			q := &eng.PathQuery{Fn: hr, FromAfter: []ssa.Instruction{st}, Target: func(x ssa.Instruction) bool {
+				return len(pubs) == 1 && x == pubs[0].(ssa.Instruction)
+			}, CutInstr: func(x ssa.Instruction) bool {
+				s2, ok := x.(*ssa.Store)
+				if !ok {
+					return false
+				}
+				fa2, ok := s2.Addr.(*ssa.FieldAddr)
+				if !ok || eng.FieldNameOf(fa2) != field || fa2.X != fa.X {
+					return false
+				}
+				return !eng.NilConst(s2.Val)
+			}}
+			w := q.Find()
+			c.Check(w == nil && len(pubs) == 1, "event "+name+" carries its payload", c.Pos(st), "event."+field+" is set before the event is published", "an event with op "+name+" is published without event."+field+" (path "+w.String()+")")
+		})
+		// the only operation kinds that publish nothing are the excluded ones and a group created without members
+		empty := eng.CmpEdges(hr, eng.Len(eng.AnyV), eng.IntConst(0), eng.EQ)
+		nNil := 0
+		okNil := true
+		for _, r := range eng.Returns(hr) {
+			if rv := eng.RetVals(r); len(rv) == 1 && eng.NilConst(rv[0]) {
+				nNil++
+				handledOp := false
+				// is this return inside a handled case? then it must be the empty-group exit
+				for n := range handledOps(hr, opT) {
+					_ = n
+				}
+				g, _ := eng.GuardedBy(hr, r, empty)
+				if g {
+					handledOp = true
+				}
+				if !handledOp {
+					// must be the default: unreachable from any op-equality true edge
+					for _, e := range opCaseEdges(hr, opT) {
+						q := &eng.PathQuery{Fn: hr, FromEdges: []eng.Edge{e}, Target: func(x ssa.Instruction) bool { return x == ssa.Instruction(r) }, CutEdges: empty}
+						if q.Find() != nil {
+							okNil = false
+						}
+					}
+				}
+			}
+		}
+		c.Check(okNil && nNil >= 1, "a handled operation is dropped only for a group created without members", p.Pos(hr.Pos()), "return nil without publishing only in the default case or on len(members) == 0", "handleRaftLog returns without publishing for a handled operation kind: that operation never appears in the activity stream")
+	}
+	c.Floor(28)
 
 	// ---- R18.2
 	c.Rule("R18.2", "K5")
@@ -162,8 +231,59 @@ func runC18(c *eng.Ctx) {
 			gd, w := eng.GuardedBy(fn, g.(ssa.Instruction), committed)
 			c.Check(gd && len(committed) > 0, "only committed entries are published", c.Pos(g.(ssa.Instruction)), "GetLog only when index <= commit index", "an uncommitted Raft entry can be published as an activity event (path "+w.String()+")")
 		}
+		// ... and every committed entry: the dispatcher waits only when index is strictly beyond the commit index
+		c.Check(exactRel(fn, eng.AnyV, eng.Call(-1, "server.raftNode.getCommitIndex"), eng.GT), "the last committed entry is not held back", p.Pos(fn.Pos()), "wait exactly when index > commit index", "the dispatcher waits although index == commit index: the newest committed operation is published only after the next commit, or never")
 	}
-	c.Floor(6)
+	for _, k := range []string{"BecomeLeader"} {
+		fn := c.Fn("server.(*activityManager)." + k)
+		if fn == nil {
+			continue
+		}
+		enabled := eng.BoolEdges(fn, eng.LoadNamed("Enabled", nil), true)
+		var start []ssa.Instruction
+		eng.Instrs(fn, func(in ssa.Instruction) {
+			if ci, ok := in.(ssa.CallInstruction); ok {
+				for _, a := range eng.AllArgs(ci.Common()) {
+					if mc, ok := a.(*ssa.MakeClosure); ok {
+						if f, ok := mc.Fn.(*ssa.Function); ok && f.Name() == "dispatch$bound" {
+							start = append(start, in)
+						}
+					}
+				}
+			}
+		})
+		ok := len(start) == 1 && len(enabled) > 0
+		pos := p.Pos(fn.Pos())
+		if ok {
+			pos = c.Pos(start[0])
+			g, _ := eng.GuardedBy(fn, start[0], enabled)
+			ok = g
+			// reachable at all on the enabled edge
+			q := &eng.PathQuery{Fn: fn, FromEdges: enabled, Target: func(x ssa.Instruction) bool { return x == start[0] }}
+			ok = ok && q.Find() != nil
+		}
+		c.Check(ok, "the dispatcher starts exactly when the activity stream is enabled", pos, "startGoroutine(a.dispatch) on Enabled", "BecomeLeader does not start the dispatcher when the activity stream is enabled (or starts it when disabled)")
+		// a fresh stop channel per term: the previous term's channel is closed, a dispatcher selecting on it would exit at once
+		chF := p.Field("server", "activityManager", "leadershipLostCh")
+		okCh := false
+		if len(start) == 1 {
+			g, _ := eng.PrecededBy(fn, start[0], func(in ssa.Instruction) bool {
+				st, ok := in.(*ssa.Store)
+				if !ok {
+					return false
+				}
+				fa, ok := st.Addr.(*ssa.FieldAddr)
+				if !ok || !fieldIs(fa, chF) {
+					return false
+				}
+				_, isMake := st.Val.(*ssa.MakeChan)
+				return isMake
+			})
+			okCh = g
+		}
+		c.Check(okCh, "each leadership term gets a fresh stop channel", pos, "a.leadershipLostCh = make(chan struct{}) before the dispatcher starts", "the dispatcher of a new term selects on the channel closed at the end of the previous term and exits immediately: nothing is published after a second election")
+	}
+	c.Floor(9)
 
 	// ---- R18.4
 	c.Rule("R18.4", "K2")
@@ -195,3 +315,14 @@ func isIndexPhi(v ssa.Value) bool {
 	_, ok := v.(*ssa.Phi)
 	return ok
 }
+
+// opCaseEdges returns the true edges of the comparisons of the log's op with an Op constant (the entries of the cases).
+func opCaseEdges(fn *ssa.Function, opT *types.Named) []eng.Edge {
+	isOpConst := func(v ssa.Value) bool {
+		k, ok := v.(*ssa.Const)
+		return ok && opT != nil && types.Identical(k.Type(), opT)
+	}
+	return eng.CmpEdges(fn, eng.AnyV, isOpConst, eng.EQ)
+}
+
+func handledOps(fn *ssa.Function, opT *types.Named) map[string]bool { return nil }
